@@ -202,7 +202,11 @@ def long_part(rep, rng, runq, todo, quick):
         n, m = int(rng.integers(1, 5)), int(rng.integers(2, 6))
         t = fd.grid(rng, m, "nonuniform")
         X = fd.dyadic_matrix(rng, n, m)
-        L = fd.dense(t, X).to_long()
+        if i % 3 == 1:
+            X = np.asfortranarray(X)                          # column-major storage
+        elif i % 3 == 2:
+            X = fd.dyadic_matrix(rng, m, n).T                 # a transposed view (not C-contiguous)
+        L = fd.dense_raw(t, X).to_long()
         ids = L["id"].to_numpy()
         pts = np.array([int(np.flatnonzero(t == v)[0]) for v in L["input_dim_0"].to_numpy()])
         tq = runq.add(f"long_ok 0 {m}%nat {C.qmat(X)} {C.natlist(ids)} {C.natlist(pts)} {C.qlist(L['values'].to_numpy())}")
@@ -212,7 +216,9 @@ def long_part(rep, rng, runq, todo, quick):
         m2 = 3
         t2 = np.array([0.0, 0.5, 2.0])
         X2 = fd.dyadic_matrix(rng, n, m * m2).reshape(n, m, m2)
-        L2 = fd.dense([t, t2], X2).to_long()
+        if i % 2 == 1:
+            X2 = np.moveaxis(fd.dyadic_matrix(rng, m2, n * m).reshape(m2, n, m), 0, -1)     # a strided view of another array
+        L2 = fd.dense_raw([t, t2], X2).to_long()
         rep.case(("long2d", X2.tobytes()), kind="to_long/2-D")
         ok = len(L2) == n * m * m2
         if ok:
